@@ -63,6 +63,18 @@ CHECKS = {
          "In-circuit SHA-256, RIPEMD-160, SHA-3/Keccak (Sum and FixedLengthSum with declared / actual / minimal lengths, arbitrary Write chunkings), MiMC (7 curves, Reset, State/SetState), Poseidon2 (permutation, Merkle-Damgard), Merkle proofs and Fiat-Shamir transcripts are compared with crypto/sha256, x/crypto, gnark-crypto for every message length around every block and padding boundary; tampered digests and invalid Merkle proofs must be unsatisfiable; test engine for the sweeps, both builders for a subset.",
          "Quick tier sweeps lengths 0..block+2 plus every later boundary +-1 (full 0..3*block+2 in the thorough tier); the FixedLengthSum triangle covers boundary maxima only.",
          "DESIGN.md §3 C15"),
+ "C05": ("exhaustive small-scope search (complete CSP over the 47-element field) + hint adversary over curve fields (rapid)",
+         "For every unary / binary API operation, operand-kind pattern (every constant value), builder and input tuple over F47, a complete search over ALL internal wires and hint outputs enumerates the set of outputs for which the exported rows are satisfiable and compares it with the documented relation (unique output, none, or anything for the documented 0/0 quotient); random 1-3 op programs cover Select / Lookup2 / MulAcc / FromBinary and the boolean-marking elision; on curve fields the nBits / InvZero hints are rewritten (bits of a+p, flipped or non-boolean digits, arbitrary inverses) and a false claim must stay unsatisfiable.",
+         "Quick tier samples the heavy operations (Cmp, AssertIsLessOrEqual, wide ToBinary) and is exhaustive in the thorough tier; searches that exceed the node budget are counted as inconclusive (variable-bound AssertIsLessOrEqual on the sparse builder for some tuples).",
+         "DESIGN.md §3 C05"),
+ "C12": ("model-based property testing of op sequences + hint adversary (rapid)",
+         "Rapid-drawn op sequences over pools of emulated elements (7-9 parameter sets incl. two custom ones, 2-4 native fields, non-canonical and short operands, sequences that pump the overflow counter) are compared with a big-integer model: every returned element must be congruent to the model and respect limb width = BitsPerLimb + tracked overflow (read by reflection), documented failures must be unsatisfiable; on compiled systems the multiplication / division / padding hints are rewritten (r+d, r+p with k-1, native-field wrap, shifted carries, too-wide limbs) and an incongruent result must never be accepted.",
+         "Open finding F11 (carry limbs of the multiplication hint are not range checked: native-field wrap forgery) is probed on every run incl. a real Groth16 proof, printed as KNOWN-FINDING and excluded by a narrow signature.",
+         "DESIGN.md §3 C12"),
+ "C16": ("differential property-based testing against reference curve arithmetic / native verifiers + hint adversary (rapid, exceptional-input tables)",
+         "Short-Weierstrass (emulated secp256k1, BN254, P-256, P-384, BLS12-381, BW6-761; native BLS12-377) and twisted-Edwards group operations, scalar and multi-scalar multiplication with and without complete arithmetic on exceptional points and scalars, ECDSA / EdDSA / ecrecover accept-sets against crypto/ecdsa and gnark-crypto, pairing checks on true and false equations; on compiled circuits the GLV / fake-GLV decomposition and scalar-mul hints are rewritten and a wrong claimed point must be unsatisfiable.",
+         "Ten open findings (F24-F32, F39: unchecked zero sub-scalars, selector bypass, AddUnified exceptional case, non-terminating half-GCD hint, unsatisfiable small scalars, twisted-Edwards decomposition not bound, ECDSA x(R) not reduced, bandersnatch identity) are each probed on every run, printed as KNOWN-FINDING and excluded by exact shape; inputs outside a method's documented domain are not asserted.",
+         "DESIGN.md §3 C16"),
 }
 
 PENDING = {}
